@@ -149,6 +149,23 @@ def gen(read):
             n += 1
             if "c2s_" + last_ident(resolve(a, al)) != p:
                 bad.append(f"server/src/lib.rs: init_modulator parameter `{p}` receives `{a}`")
+    # 4b. the adjusted limits are the configured ones clamped by what the modulator advertises (never the modulator's alone)
+    adj = list(re.finditer(r"let\s+adjusted_(max_\w+)\s*=\s*([^;]+);", modlib))
+    if len(adj) < 2:
+        raise Shape("wiring: the adjusted limits of init_modulator not found")
+    for mm in adj:
+        n += 1
+        name, expr = mm.group(1), re.sub(r"\s", "", mm.group(2))
+        ok = expr in ("session_info.%s.min(c2s_%s)" % (name, name), "c2s_%s.min(session_info.%s)" % (name, name),
+                      "std::cmp::min(session_info.%s,c2s_%s)" % (name, name), "std::cmp::min(c2s_%s,session_info.%s)" % (name, name))
+        if not ok:
+            bad.append(f"modulator/src/lib.rs: adjusted_{name} is `{mm.group(2).strip()}`, not the configured limit clamped by the modulator's")
+    for mm in re.finditer(r"adjusted_(max_\w+)\s*:\s*(\w+)\s*,", modlib):
+        if mm.group(2) in ("u32", "u64", "usize"):
+            continue          # the field's declaration
+        n += 1
+        if mm.group(2) not in ("c2s_" + mm.group(1), "adjusted_" + mm.group(1)):
+            bad.append(f"modulator/src/lib.rs: adjusted_{mm.group(1)} is initialised from `{mm.group(2)}`")
     for mm in re.finditer(r"limits\.(max_\w+)\s*=\s*modulator_service\.adjusted_(\w+)\s*;", lib):
         n += 1
         if mm.group(1) != mm.group(2):
